@@ -69,6 +69,11 @@ package server
 // and its ADD-PATH mode has a direction only if we configured it and the peer announced the opposite one.
 // (That every such family does end up in the map needs "the range visits every key", which the map model does
 // not give - DESIGN.md 8.)
+// from C08 "exactly the address families both sides announced ... Messages are ... emitted under exactly these options":
+// an End-of-RIB marker is only made for a family the session negotiated (the callers hand in the configured list)
+//@ func (*BgpServer).getBestFromLocalCallbackLocked
+//@   claims at-call
+//@   at-call table.NewEOR(family) requires peer.IsFamilyEnabled(arg0)
 //@ func open2Cap
 // an OPEN without a Multiprotocol capability announces IPv4 unicast (RFC 4760 8): that default is in the peer's list
 // before ADD-PATH tuples and local families are matched against it - an ADD-PATH tuple for ipv4-unicast counts then too
